@@ -278,6 +278,7 @@ class C03Oracle(Oracle):
 class C06Oracle(Oracle):
     def start(self):
         self._recent = []
+        self.col.event(f"construct_route:{self.w.cfg['route']}")
         self._check("construction")
 
     def before(self, op, pre):
@@ -287,6 +288,20 @@ class C06Oracle(Oracle):
         kind = op["op"]
         self._recent = (self._recent + [kind if out.ok else f"refused_{kind}"])[-3:]
         self._check(kind, pre, post)
+
+    def finish(self):
+        """Recomputing the ids (a registry-level operation, so only at the end of a walk) must
+        leave lookups and counters that describe the *new* labelling only."""
+        tr = self.w.tracks
+        keys = [self.w.tkey] + ([self.w.lkey] if self.w.lkey else [])
+        ok, r = _safe(lambda: tr.enable_features(keys))
+        self.col.evaluation()
+        if not ok:
+            self.rep("recompute_raised", f"enable_features({keys}) raised {r!r}")
+            return
+        self.col.event("ids_recomputed")
+        self._recent = ["recompute"]
+        self._check("recompute_ids")
 
     def _check(self, where, pre=None, post=None):
         w = self.w
@@ -313,8 +328,8 @@ class C06Oracle(Oracle):
             warnings.simplefilter("ignore")
             nt = tr.get_next_track_id()
             nl = tr.get_next_lineage_id()
-            if nt in scan_t:
-                self.rep(f"next_track_id_in_use:{where}", f"after {where}: get_next_track_id()={nt} is in use")
+            if nt in scan_t or nt in tr.track_id_to_node:
+                self.rep(f"next_track_id_in_use:{where}", f"after {where}: get_next_track_id()={nt} is in use / still listed in the lookup")
                 return
             if nl in scan_l:
                 self.rep(f"next_lineage_id_in_use:{where}", f"after {where}: get_next_lineage_id()={nl} is in use")
@@ -445,7 +460,7 @@ class C11Oracle(Oracle):
         self.col.nontrivial_case((kind, out.exc_name, cls, self._tags, bool(op.get("force"))))
         if kind in ("enable", "disable"):
             return
-        d = C.full_diff(self._full, C.full_snapshot(self.w.tracks))
+        d = C.full_diff(self._full, C.full_snapshot(self.w.tracks), strict_lookups=True)
         if d is not None:
             self.rep(f"refused_{kind}_changed_state:{cls}",
                      f"{kind} {op_brief(op)} raised {out.exc!r} but changed the tracks: {d}")
